@@ -56,6 +56,20 @@ def gen_case(rng):
                                        measurements=[dict(proj=list(cl), sigma=s, Q=Q.tolist(), y=[float(v) for v in y]) for Q, y, s, cl in ms])
 
 
+def expected_total(ms):
+    """Independent oracle for the estimated total: minimum-norm unbiased linear estimate per measurement whose query can express
+    the count (dense least squares), inverse-variance combination, at least 1."""
+    ests, vars_ = [], []
+    for Q, y, sigma, cl in ms:
+        Qd = np.asarray(Q, dtype=float); o = np.ones(Qd.shape[1])
+        v = np.linalg.lstsq(Qd.T, o, rcond=None)[0]
+        if np.allclose(Qd.T @ v, o):
+            ests.append(float(v @ np.asarray(y))); vars_.append(sigma ** 2 * float(v @ v))
+    if not ests:
+        return 1.0
+    return max(1.0, sum(e / v for e, v in zip(ests, vars_)) / sum(1 / v for v in vars_))
+
+
 def indep_loss(pub, weights, ms):
     names = list(pub.domain.attrs); cfg = dict(zip(names, pub.domain.shape))
     rows = pub.df.values
@@ -93,6 +107,16 @@ def main(chk):
         try:
             with np.errstate(all='ignore'):
                 eng = pm.PublicInference(pub)
+                history = None
+                if rng.random() < 0.3:
+                    # an EARLIER call on the same object (other answers, fewer measurements, another total): this call's total must
+                    # still be the one given / estimated from THIS call's measurements
+                    prev = [(Q, y * 2.0 + 3.0, s, cl) for Q, y, s, cl in ms][:rng.randint(1, len(ms))]
+                    ptotal = rng.choice([None, None, 7.0])
+                    eng.estimate(prev, total=ptotal)
+                    history = dict(earlier_call_measurements=len(prev), earlier_total=ptotal)
+                    del calls[:]
+                info['history'] = history
                 out = eng.estimate([(Q, y, s, cl) for Q, y, s, cl in ms], total=total)
                 second = None
                 if rng.random() < 0.25:
@@ -120,14 +144,18 @@ def main(chk):
             bad = 'weights sum to %.9g, not to the total %.9g' % (w.sum(), T)
         elif total is not None and T != total:
             bad = 'the total given by the caller (%s) is not the one used (%s)' % (total, T)
+        elif total is None and abs(T - expected_total(ms)) > 1e-6 * max(1.0, abs(T)):
+            bad = 'the total used (%.9g) is not the inverse-variance estimate from the supplied measurements (%.9g)' % (T, expected_total(ms))
         elif not np.array_equal(out.df.values, before) or not np.array_equal(pub.df.values, before) or list(out.domain.attrs) != info['attrs']:
             bad = 'the public records were changed'
         else:
             Lw = indep_loss(pub, w, ms)
-            Lu = indep_loss(pub, np.ones(len(w)) * T / len(w), ms)
+            # the start of the call: uniform weights on a fresh object; after an earlier call, that call's weights rescaled to the total
+            x0 = np.asarray(args[1], dtype=float)
+            Lu = indep_loss(pub, (np.ones(len(w)) * T / len(w)) if info.get('history') is None else x0 * T / x0.sum(), ms)
             info.update(loss_reweighted=Lw, loss_uniform=Lu)
             if Lw > Lu * (1 + 1e-9) + 1e-9:
-                bad = 'the reweighted data fits worse (%.9g) than the uniformly weighted public data with the same total (%.9g)' % (Lw, Lu)
+                bad = 'the reweighted data fits worse (%.9g) than the %s with the same total (%.9g)' % (Lw, 'uniformly weighted public data' if info.get('history') is None else 'weights the call started from', Lu)
         if bad:
             chk.violation(dict(kind='public'), bad, dict(info, weights=w.tolist()[:40]), found_input=True)
         # the oracle the optimiser descends on must be the fit to the supplied measurements (independent evaluation at every query point)
